@@ -167,7 +167,7 @@ theorem ref_fill_ws (inG : Bool) : ∀ (ws : List PToken) (f : Frame) (stack : L
 /-! ### operands in list mode -/
 
 /-- **the tokens `x` form a complete operand in list mode** (the list flag is set, the first token inserts the List node) -/
-def ListOpdOK (x : List PToken) : Prop :=
+def ListOpdOK (c : Nat) (x : List PToken) : Prop :=
   ∀ (st : PState) (ug : Option Nat) (nodes' : Array ParseNode) (info : Info),
     underGroupOf st = .ok ug → adjustLastLeft st ug = .ok st → st.nextLastLeft = none → st.checkForList = true →
     (st.previousSecondDef = .whitespace ∨ st.previousSecondDef = .annotation ∨ st.previousSecondDef = .subexpression) →
@@ -179,17 +179,18 @@ def ListOpdOK (x : List PToken) : Prop :=
     ∃ (st2 : PState) (sub : Tree) (cb : Nat) (P : RTree → RTree),
       loop st (x ++ rest) = loop st2 rest ∧ OpdRes (listState st nodes' info) st2 sub cb ∧
       PlugFn (dfOf st2.nodes) .list sub P ∧
+      sub.inorder.length + (listState st nodes' info).nodes.size + c = st2.nodes.size ∧
       ∀ (f : Frame) (stack : List Frame) (restR : List PToken), f.last = .operand → f.ws = true →
         refLoop Table.gen f stack pos (x ++ restR) =
           refLoop Table.gen { f with cur := P (attach Table.gen 220 false .list (pos - 1) f.cur), last := .operand,
                                      ws := false, prevSep := false } stack (pos + x.length) restR
 
 /-- an operand that starts with a prefix operator or an opening bracket -/
-theorem listOpd_po {t : PToken} {r : List PToken} (hx : OpdOK (t :: r)) (hr : r ≠ [])
-    (ht : isPrefixTok t = true ∨ isOpenTok t = true) : ListOpdOK (t :: r) := by
+theorem listOpd_po {c : Nat} {t : PToken} {r : List PToken} (hx : OpdOK c (t :: r)) (hr : r ≠ [])
+    (ht : isPrefixTok t = true ∨ isOpenTok t = true) : ListOpdOK c (t :: r) := by
   intro st ug nodes' info hug hadj hnnl hcfl hprev hpt hir hO hprios hcg habove pos hnum rest
-  obtain ⟨st2, sub, cb, P, hloop, hres, hP, href⟩ := hx (listState st nodes' info) ug hO hprios hcg pos hnum rest
-  refine ⟨st2, sub, cb, P, ?_, hres, by rw [← habove]; exact hP, ?_⟩
+  obtain ⟨st2, sub, cb, P, hloop, hres, hP, hcnt, href⟩ := hx (listState st nodes' info) ug hO hprios hcg pos hnum rest
+  refine ⟨st2, sub, cb, P, ?_, hres, by rw [← habove]; exact hP, hcnt, ?_⟩
   · rw [← hloop]
     simp only [List.cons_append, loop]
     have he : (r ++ rest).isEmpty = false := by cases r <;> simp_all
@@ -208,7 +209,7 @@ theorem listOpd_po {t : PToken} {r : List PToken} (hx : OpdOK (t :: r)) (hr : r 
     rw [ref_list_head f stack pos t _ (by rcases ht with h | h; exact Or.inl h; exact Or.inr (Or.inl h)) hl hw]
 
 /-- an operand that is a single value -/
-theorem listOpd_value (a : PToken) (ha : isAtom10 a = true) : ListOpdOK [a] := by
+theorem listOpd_value (a : PToken) (ha : isAtom10 a = true) : ListOpdOK 0 [a] := by
   intro st ug nodes' info hug hadj hnnl hcfl hprev hpt hir hO hprios hcg habove pos hnum rest
   obtain ⟨hsa, hqa⟩ := atom10_facts ha
   have hsz' : nodes'.size = st.nodes.size := (parseToken_size_def hpt).1
@@ -226,7 +227,8 @@ theorem listOpd_value (a : PToken) (ha : isAtom10 a = true) : ListOpdOK [a] := b
   have hdfV : dfOf (listValue st nodes' info a).nodes (st.nodes.size + 1) = underDef .list (getDefinition a.type).1 := by
     simp [dfOf, hVn]
   refine ⟨listValue st nodes' info a, .node .nil (st.nodes.size + 1) a.col .nil, (listValue st nodes' info a).nodes.size,
-    fun R => plug (plugLeaves R []) (.node .nil (getDefinition a.type).1 pos .nil), ?_, ?_, ?_, ?_⟩
+    fun R => plug (plugLeaves R []) (.node .nil (getDefinition a.type).1 pos .nil), ?_, ?_, ?_,
+    by simp only [Tree.inorder, List.nil_append, List.length_cons, List.length_nil]; omega, ?_⟩
   · simp only [List.cons_append, List.nil_append, loop, hstep, Outcome.bind]
   · refine ⟨fun j hj => hlt2 j (by omega), by omega, ?_, ?_, hnnl, rfl, rfl, ?_, ?_, ?_, ?_, ?_⟩
     · rw [hsL]
